@@ -772,6 +772,10 @@ def netspecs(draw, prof: Profile):
             if b.shapes[l] == b.shapes[t]:
                 a1 = b.add('add', [t, l], variant='op')
                 a1 = b.maybe_act(a1)
+                if p.pool and min(b.shapes[a1][1:]) >= 4 and draw(st.booleans()):
+                    # the second invocation works at another resolution (same layer object,
+                    # different output shape)
+                    a1 = b.add(draw(st.sampled_from(['avgpool', 'maxpool'])), [a1])
                 r = b.add('reuse', [a1], of=l)
                 t = b.add('add', [a1, r], variant=draw(st.sampled_from(['op', 'torch'])))
             else:
